@@ -12,6 +12,10 @@ CONSTANTS
   MaxPauses = 1
   MaxFails = 1
   F7 = FALSE
+  InitSize = 3
+  MaxJoins = 0
+  MaxParts = 0
+  Trailing = 99
 VIEW view
 SYMMETRY NodeSymmetry
 INVARIANTS
